@@ -9,6 +9,8 @@ names, different factors, other numeric type) is touched by some events and must
 its own fresh answers."""
 from __future__ import annotations
 
+import itertools
+
 import copy
 from fractions import Fraction
 
@@ -327,6 +329,65 @@ class BundledDriver(explore.Driver):
                 acc.violation(["transparency(bundled)", p, "differs-from-fresh-registry", cause], {"history": [list(e) for e in hist], "probe": p, "declarative_state": {"defined": s.defined, "default_system": s.system, "contexts": s.stack}}, want[p], o)
 
 
+# ----------------------------------------------------------------------------- per-object memos
+
+OBJ_UNITS = ["meter", "kilometer / hour", "nanometer", "newton * meter", "percent", "degC", "liter"]
+
+
+def _inplace_ops(ureg):
+    Q = ureg.Quantity
+    return [
+        ("*= quantity", lambda q: q.__imul__(Q(2.0, "second"))),
+        ("/= quantity", lambda q: q.__itruediv__(Q(2.0, "second"))),
+        ("//= same unit", lambda q: q.__ifloordiv__(Q(2.0, q._units))),
+        ("**= 2", lambda q: q.__ipow__(2)),
+        ("*= number", lambda q: q.__imul__(3.0)),
+        ("ito(other unit)", lambda q: q.ito("inch") if dict(q._units) in ({"meter": 1}, {"nanometer": 1}) else q),
+        ("ito(other dimension, context)", lambda q: q.ito("terahertz", "sp") if dict(q._units) == {"nanometer": 1} else q),
+        ("ito_root_units", lambda q: (q.ito_root_units(), q)[1]),
+        ("ito_base_units", lambda q: (q.ito_base_units(), q)[1]),
+        ("ito_reduced_units", lambda q: (q.ito_reduced_units(), q)[1]),
+    ]
+
+
+def run_object_memo(acc):
+    """a quantity memoises its dimensionality; every operation that replaces its unit container in place has to leave
+    the derived attributes (dimensionality, dimensionless, unitless, check, is_compatible_with) describing the NEW units.
+    Every (unit x magnitude kind x in-place operation x chained second operation), with the memo warmed first."""
+    import numpy as np
+
+    ureg = regs.default("float", fresh=True)
+    ops = _inplace_ops(ureg)
+
+    def attrs(q):
+        return [str(q.dimensionality), q.dimensionless, q.unitless]
+
+    for ustr in OBJ_UNITS:
+        for mk, mag in (("scalar", lambda: 500.0), ("ndarray", lambda: np.array([500.0, 2.0]))):
+            for (n1, op1), (n2, op2) in itertools.product(ops, ops + [("-", None)]):
+                acc.ev()
+                acc.nt(("objmemo", ustr, mk, n1, n2))
+                q = ureg.Quantity(mag(), ustr)
+                attrs(q)  # warm the memo
+                case = {"units": ustr, "magnitude": mk, "operations": [n1, n2]}
+                o = call(lambda: op1(q))
+                if o[0] != "ok" or not hasattr(o[1], "_units"):
+                    continue
+                r = o[1]
+                if op2 is not None:
+                    attrs(r)
+                    o = call(lambda: op2(r))
+                    if o[0] != "ok" or not hasattr(o[1], "_units"):
+                        continue
+                    r = o[1]
+                fresh = ureg.Quantity(1.0, r._units)
+                got, want = attrs(r), attrs(fresh)
+                extra = [r.check(fresh.dimensionality), r.is_compatible_with(fresh)]
+                if got != want or extra != [True, True]:
+                    acc.violation(["object-memo", "dimensionality" if got[0] != want[0] else "predicates", "stale-after-in-place-operation", n2 if op2 is not None else n1], case, want + [True, True], got + extra)
+    acc.sample({"clause": "object-memo", "units": "nanometer", "operations": ["ito(other dimension, context)", "*= quantity"]})
+
+
 def shards(tier, seed):
     depth = 3 if tier == "quick" else 4
     out = [("T", 0, None)]
@@ -336,11 +397,14 @@ def shards(tier, seed):
     out.append(("D", 0, None))
     for e in BundledDriver.EV:
         out.append(("D", dD, list(e)))
+    out.append(("objmemo", 0, None))
     return out
 
 
 def run_shard(acc, shard, tier, seed):
     which, depth, first = shard
+    if which == "objmemo":
+        return run_object_memo(acc)
     drv = CacheDriver(sequential=(tier == "quick")) if which == "T" else BundledDriver()
     roots = [()] if first is None else [(tuple(first),)]
     explore.explore(drv, acc, depth, roots=roots, oracle_on="new" if tier == "quick" else "all")
@@ -350,6 +414,9 @@ def run_shard(acc, shard, tier, seed):
 def replay(rec):
     site, case = rec["site"], rec["case"]
     acc = core.Acc(PROPERTY)
+    if site[0] == "object-memo":
+        run_object_memo(acc)
+        return tuple(site) in {tuple(v["site"]) for v in acc.violations}, {}
     drv = BundledDriver() if "bundled" in site[0] else CacheDriver(sequential=(rec.get("tier", "quick") == "quick"))
     hist = tuple(tuple(e) for e in case["history"])
     s, outs = explore.run_history(drv, hist)
@@ -364,7 +431,8 @@ MANIFEST = {
     "text": "All histories up to depth 3 (4 thorough) over 24 events (11 query kinds that fill RegistryCache, the per-context overlays, the base-unit cache, the parse cache and the process-wide lru_caches; 3 "
     "defines including one that collides with a prefixed reading; enabling/disabling two unit-redefining contexts; default_system = fsys / isys / None; touching a second registry that defines the same names "
     "differently with another numeric type; deepcopy) are replayed on a generated registry. In every distinct state each of 15 probes is answered on its own replayed copy and must equal the answer of a "
-    "fresh registry given the same definitions, default system and context stack; the second registry must keep its own fresh answers. The bundled registry is explored at depth 2 (3) over 14 events with 8 probes.",
+    "fresh registry given the same definitions, default system and context stack; the second registry must keep its own fresh answers. The bundled registry is explored at depth 2 (3) over 14 events with 8 probes. Per-object memo: 7 units x scalar/ndarray x every ordered pair of 10 in-place operations (*=, /=, //=, **=, ito to "
+    "another unit, ito across dimensions through a context, ito_root/base/reduced_units) with the memo warmed before each: dimensionality, dimensionless, unitless, check and is_compatible_with must describe the new units.",
     "note": "Trusted: the definition of 'declarative state'; the fingerprint (quick runs the probe vector once per distinct fingerprint; thorough on every transition). Histories beyond the depth bound and other "
     "query kinds are not explored.",
     "ref": "DESIGN.md §4 C13",
